@@ -7,6 +7,10 @@ TransS(e) ==
     \/ e.op = "push" /\ e.ok /\ e.has_r  /\ PushStr(e.o, e.s, e.r)
     \/ e.op = "push" /\ e.ok /\ ~e.has_r /\ PushStrNoIdx(e.o, e.s)
     \/ e.op = "push" /\ ~e.ok /\ PushStrRefused(e.o, e.s)
+    \/ e.op = "extend" /\ e.ok  /\ ExtendStr(e.o, e.xs, e.r)
+    \/ e.op = "extend" /\ ~e.ok /\ MaintenanceStr(e.o)
+    \/ e.op = "count_prefix" /\ CountPrefix(e.o, e.s, e.r)
+    \/ e.op = "range" /\ RangeStr(e.o, e.a, e.b, e.r)
     \/ e.op = "sort" /\ e.ok  /\ SortStr(e.o, e.kind)
     \/ e.op = "sort" /\ ~e.ok /\ SortRefused(e.o)
     \/ e.op = "clear" /\ ClearStr(e.o)
@@ -31,7 +35,7 @@ MinOf(S) == CHOOSE i \in S : \A j \in S : i <= j
 IsDedup(e) == /\ e.op = "push" /\ e.ok /\ e.has_r
               /\ e.r < Len(strs[e.o]) /\ strs[e.o][e.r + 1] = e.s
 G4(e, subj) ==
-    /\ subj.fam = "advanced" /\ subj.variant \in {"level_1", "level_2", "level_3"}
+    /\ subj.fam = "advanced" /\ subj.dedup         \* every configuration with compression level >= 1
     /\ IsDedup(e)
 KF4(e, subj) == G4(e, subj) /\ UNCHANGED strvars /\ ObsStr(strs[e.o], mode[e.o], e.post)
 
